@@ -132,8 +132,38 @@ def key_position(ctx, job):
     ctx.ops += len(res)
 
 
+def umforward_slot(ctx, job):
+    """a command forwarded by a peer proxy (UMFORWARD <times> <command>) is routed by the slot of ITS key once the prefix
+    is stripped: the real handler strips it (handle_umforward / extract_inner_cmd) and hands the command to the manager"""
+    from props import executor as X
+    def run(e):
+        h, mgr, redis = X.make_handler(e, 'Disabled', active_redirection=True, commit=False)
+        seen = []
+        def m_send(e_, selfref, cmd_ctx): seen.append(un(cmd_ctx)); return mk_unit()
+        mgr.m_send = m_send
+        key = [z3.BitVec('k%d' % i, 8) for i in range(job['klen'])]
+        inner = {'GET': [list(b'GET'), key], 'SET': [list(b'set'), key, list(b'v')], 'EVAL': [list(b'EVAL'), list(b'return 1'), list(b'1'), key]}[job['cmd']]
+        req = [list(b'UMFORWARD'), list(str(job['times']).encode())] + inner
+        ctxv, rcv = X.make_cmd_ctx(e, req)
+        auth = Struct('Atomic', [True])
+        e.run_func(e.find_fn('ForwardHandler', 'handle_cmd_ctx', 'CmdCtxHandler'), [Ref(Cell(h)), ctxv, rcv, Ref(Cell(auth))])
+        def wit(m): return {'request': [show(bytes_of([Cell(b) for b in el], m)) for el in req], 'handed_to_manager': len(seen)}
+        items = [('forwarded-command-reaches-routing', 'C09/forwarded-command-not-routed', len(seen) == 1, wit)]
+        if len(seen) == 1:
+            slot = e.run_func(e.find_fn('CmdCtx', 'get_slot', 'CmdTask'), [Ref(Cell(seen[0]))])
+            exp = ref_slot([Cell(b) for b in key])
+            items.append(('forwarded-command-routed-by-its-key', 'C09/forwarded-command-routed-by-wrong-slot', slot.variant == 1 and bv(slot.f[0].v) == exp,
+                          lambda m: dict(wit(m), slot=repr(concretize(slot, m)), expected=m.eval(exp, model_completion=True).as_long())))
+            times = un(seen[0]).f[e.src.structs['CmdCtx'].index('redirection_times')].v
+            items.append(('redirection-count-kept', 'C09/redirection-count-lost', times.variant == 1 and times.f[0].v == job['times'], wit))
+        ctx.require_all(e, items)
+        return 1
+    res = ctx.explore('UMFORWARD %d %s key of %d bytes' % (job['times'], job['cmd'], job['klen']), run)
+    ctx.ops += len(res)
+
+
 def worker(ctx, job):
-    {'slot': slot_of_key, 'send': send_decision, 'key': key_position}[job['kind']](ctx, job)
+    {'slot': slot_of_key, 'send': send_decision, 'key': key_position, 'umf': umforward_slot}[job['kind']](ctx, job)
 
 
 def run(ctx):
@@ -147,11 +177,14 @@ def run(ctx):
     for cmd in ('GET', 'EVAL', 'eval', 'EvalSha', 'SET'):
         for argc in ((0, 1, 3, 4) if not quick else (1, 3, 4)):
             jobs.append({'kind': 'key', 'cmd': cmd, 'argc': argc})
+    for cmd in ('GET', 'SET', 'EVAL'):
+        for times in (0, 2):
+            jobs.append({'kind': 'umf', 'cmd': cmd, 'times': times, 'klen': 2 if quick else 3})
     ctx.bounds = {'symbolic key length (M)': '0..%d bytes' % N, 'range layouts': '%d edge-case layouts with concrete boundaries (single slot, gaps, several ranges per node, reversed, beyond SLOT_NUM, overlap)' % len(LAYOUTS),
                   'slot': 'symbolic over all 16384 values (forked per distinct table entry, not per index)', 'command shapes': 'GET/SET/EVAL/eval/EvalSha with 0..4 two-byte symbolic arguments'}
     ctx.assumptions += ['crc16 crate = bit-serial CRC16/XMODEM (checked by the Kani harness on keys <= 2 bytes; every table entry is exercised by the 1-byte case)',
                         'range boundaries are concrete per layout: SlotMapData::new iterates start..=end and cannot be run with symbolic bounds at the real SLOT_NUM']
-    ctx.not_explored += ['multi-key guards in the async handlers of executor.rs (handle_mget/mset/eval): not decided here', 'CLUSTER KEYSLOT formatting', 'keys longer than the bound']
+    ctx.not_explored += ['multi-key guards of the async handlers are decided under C20 / C16 (command-layer harness)', 'CLUSTER KEYSLOT formatting', 'keys longer than the bound']
     ctx.run_parallel(jobs, worker)
     from vlib import kani
     kani.run(ctx, ['hash_tag_matches_redis_rule_len6', 'slot_is_crc16_xmodem_mod_16384_len2'] + ([] if quick else ['hash_tag_matches_redis_rule_len8']), expect_fail=['hash_tag_vacuity_witness'])
